@@ -55,7 +55,7 @@ theorem gaiNextDns_ok (cfg : Cfg) (c : Client) (hk : c.kind = "gai") (r) (h : ga
 theorem gaiNextLookup_ok (cfg : Cfg) (fuel : Nat) (c : Client) (st : Status) (hk : c.kind = "gai") :
     GaiOk c c.remaining (gaiNextLookup cfg fuel c st) := by
   induction fuel generalizing c with
-  | zero => exact ⟨hk, rfl, rfl, by simp [hasFinish, sends]⟩
+  | zero => unfold gaiNextLookup; exact ⟨hk, rfl, rfl, by simp [hasFinish, sends]⟩
   | succ n ih =>
     unfold gaiNextLookup
     split
@@ -66,5 +66,248 @@ theorem gaiNextLookup_ok (cfg : Cfg) (fuel : Nat) (c : Client) (st : Status) (hk
       · exact ih _ hk
     · exact ih _ hk
     · exact ⟨hk, rfl, rfl, by simp [hasFinish, sends]⟩
+
+/-! #### `gaiOnCb`, split into its two halves (definitionally the code of `Client.lean`) -/
+
+/-- ares_parse_into_addrinfo part of `gaiOnCb` -/
+def gaiParse (c : Client) (st : Status) (rec : Option Reply) : Client × Status × List ClientAct :=
+    match st, rec with
+    | .ok, some r =>
+      if r.an == 0 then (c, .nodata, []) else
+      let isA := r.qtype == 1
+      let isAAAA := r.qtype == 28
+      if !isA && !isAAAA then
+        let nodes := (List.range r.an).map fun i => s!"{answerAddr 1 r.mark i}/{r.ttls.getD i (r.ttls.getLastD 300)}"
+        let c := { c with addrs := c.addrs ++ nodes, hasV4 := true,
+                          aiName := if hexLower c.aiName == hexLower r.name && c.aiName != "" then c.aiName else r.name }
+        (c, .ok, [])
+      else
+        let nodes := (List.range r.an).map fun i => s!"{answerAddr r.qtype r.mark i}/{r.ttls.getD i (r.ttls.getLastD 300)}"
+        let c := { c with addrs := c.addrs ++ nodes, hasV4 := c.hasV4 || isA,
+                          aiName := if hexLower c.aiName == hexLower r.name && c.aiName != "" then c.aiName else r.name }
+        let other := if r.id == c.qidA then c.qidAAAA else c.qidA
+        (c, .ok, if c.hasV4 && c.remaining != 0 then [.noRetry other] else [])
+    | _, _ => (c, .ok, [])
+
+/-- decision part of `gaiOnCb` -/
+def gaiTail (cfg : Cfg) (st : Status) (x : Client × Status × List ClientAct) : Client × List ClientAct :=
+  let (c, addinfo, acts) := x
+  if c.remaining != 0 then (c, acts) else
+  if st == .destruction || st == .cancelled then (c, acts ++ [.finish st c.timeouts "ai="])
+  else if addinfo != .ok && addinfo != .nodata then (c, acts ++ [.finish addinfo c.timeouts "ai="])
+  else if !c.addrs.isEmpty then (c, acts ++ [.finish .ok c.timeouts (gaiDigest c)])
+  else if st == .notfound || st == .nodata || addinfo == .nodata then
+    let c := if st == .nodata || addinfo == .nodata then { c with nodataCnt := c.nodataCnt + 1 } else c
+    let (c, a) := gaiNextLookup cfg 8 c (if c.nodataCnt != 0 then .nodata else st)
+    (c, acts ++ a)
+  else if (st == .servfail || st == .refused) && labelCnt c.lastName == 1 then
+    let (c, a) := gaiNextLookup cfg 8 c (if c.nodataCnt != 0 then .nodata else st)
+    (c, acts ++ a)
+  else (c, acts ++ [.finish st c.timeouts "ai="])
+
+def gaiStatus (st0 : Status) (rec : Option Reply) : Status :=
+  if st0 != .ok then st0 else
+    match rec with
+    | some r => replyToStatus r.rcode r.an
+    | none => st0
+
+theorem gaiOnCb_eq (cfg : Cfg) (c : Client) (st0 : Status) (timeouts : Nat) (rec : Option Reply) :
+    gaiOnCb cfg c st0 timeouts rec =
+      gaiTail cfg (gaiStatus st0 rec)
+        (gaiParse { c with timeouts := c.timeouts + timeouts, remaining := c.remaining - 1 } (gaiStatus st0 rec) rec) :=
+  rfl
+
+theorem hasFinish_ite_noRetry (b : Bool) (x : Nat) :
+    hasFinish (if b = true then [ClientAct.noRetry x] else []) = false := by cases b <;> rfl
+theorem sends_ite_noRetry (b : Bool) (x : Nat) :
+    sends (if b = true then [ClientAct.noRetry x] else []) = 0 := by cases b <;> rfl
+
+/-- the parse half keeps the bookkeeping fields and asks for no sub-request -/
+theorem gaiParse_ok (c : Client) (st : Status) (rec : Option Reply) :
+    (gaiParse c st rec).1.kind = c.kind ∧ (gaiParse c st rec).1.id = c.id ∧ (gaiParse c st rec).1.tok = c.tok ∧
+    (gaiParse c st rec).1.remaining = c.remaining ∧
+    hasFinish (gaiParse c st rec).2.2 = false ∧ sends (gaiParse c st rec).2.2 = 0 := by
+  unfold gaiParse
+  split
+  · split
+    · exact ⟨rfl, rfl, rfl, rfl, rfl, rfl⟩
+    · simp only
+      split
+      · exact ⟨rfl, rfl, rfl, rfl, rfl, rfl⟩
+      · exact ⟨rfl, rfl, rfl, rfl, hasFinish_ite_noRetry _ _, sends_ite_noRetry _ _⟩
+  · exact ⟨rfl, rfl, rfl, rfl, rfl, rfl⟩
+
+theorem gaiTail_ok (cfg : Cfg) (st : Status) (c0 c : Client) (addinfo : Status) (acts : List ClientAct)
+    (hk : c.kind = "gai") (hid : c.id = c0.id) (htok : c.tok = c0.tok)
+    (hf : hasFinish acts = false) (hs : sends acts = 0) :
+    GaiOk c0 c.remaining (gaiTail cfg st (c, addinfo, acts)) ∧
+      (hasFinish (gaiTail cfg st (c, addinfo, acts)).2 = true → c.remaining = 0) := by
+  have fin : ∀ st' t dg, GaiOk c0 c.remaining (c, acts ++ [.finish st' t dg]) := fun st' t dg =>
+    ⟨hk, hid, htok, by simp [(hasFinish_append_finish acts st' t dg hs).1, (hasFinish_append_finish acts st' t dg hs).2]⟩
+  have look : ∀ (c' : Client) st', c'.kind = "gai" → c'.id = c0.id → c'.tok = c0.tok → c'.remaining = c.remaining →
+      GaiOk c0 c.remaining ((gaiNextLookup cfg 8 c' st').1, acts ++ (gaiNextLookup cfg 8 c' st').2) := by
+    intro c' st' hk' hid' htok' hr'
+    obtain ⟨g1, g2, g3, g4⟩ := gaiNextLookup_ok cfg 8 c' st' hk'
+    refine ⟨g1, g2.trans hid', g3.trans htok', ?_⟩
+    simp only [(hasFinish_append acts _ hf hs).1, (hasFinish_append acts _ hf hs).2]
+    rw [hr'] at g4; exact g4
+  unfold gaiTail
+  simp only
+  by_cases hr : c.remaining = 0
+  · simp only [hr, bne_self_eq_false, Bool.false_eq_true, ↓reduceIte, implies_true, and_true]
+    rw [← hr]
+    repeat' split
+    all_goals first
+      | exact fin _ _ _
+      | exact look _ _ (by first | exact hk | rfl) (by first | exact hid | rfl) (by first | exact htok | rfl) rfl
+  · have : (c.remaining != 0) = true := by simpa using hr
+    simp only [this, ↓reduceIte]
+    exact ⟨⟨hk, hid, htok, by simp [hf, hs]⟩, fun h => by rw [hf] at h; cases h⟩
+
+theorem outstanding_gai {c : Client} (h : c.kind = "gai") : c.outstanding = c.remaining := by
+  unfold Client.outstanding; simp [h]
+theorem outstanding_other {c : Client} (h : (c.kind == "gai") = false) : c.outstanding = 1 := by
+  unfold Client.outstanding; simp [h]
+
+/-! ### the contract -/
+
+/-- what the completion callback of a sub-request may do -/
+structure OnCbOk (c : Client) (r : Client × List ClientAct) : Prop where
+  id : r.1.id = c.id
+  tok : r.1.tok = c.tok
+  count : if hasFinish r.2 then sends r.2 = 0 ∧ c.outstanding = 1
+          else r.1.outstanding + 1 = c.outstanding + sends r.2
+
+/-- `search_callback` (definitionally the last branch of `clientOnCb`) -/
+def searchCb (c : Client) (st : Status) (timeouts : Nat) (rec : Option Reply) : Client × List ClientAct :=
+    let c := { c with timeouts := c.timeouts + timeouts }
+    let my : Status := match rec with
+      | some r => replyToStatus r.rcode r.an
+      | none => st
+    let goOn : Bool :=
+      my == .nodata || my == .notfound ||
+      ((my == .servfail || my == .refused) && labelCnt c.lastName == 1)
+    if !goOn then (c, [.finish my c.timeouts (digest rec)]) else
+    let c := if my == .nodata then { c with everNodata := true } else c
+    if !c.names.isEmpty then searchNextAct c
+    else if c.everNodata then (c, [.finish .nodata c.timeouts "-"])
+    else (c, [.finish my c.timeouts "-"])
+
+theorem clientOnCb_search (cfg : Cfg) (c : Client) (st : Status) (timeouts : Nat) (rec : Option Reply)
+    (h1 : (c.kind == "gai") = false) (h2 : (c.kind == "query") = false) :
+    clientOnCb cfg c st timeouts rec = searchCb c st timeouts rec := by
+  unfold clientOnCb
+  rw [if_neg (by simp [h1]), if_neg (by simp [h2])]
+  rfl
+
+theorem searchTail_ok (c c2 : Client) (my : Status) (ho : c.outstanding = 1) (hk : c2.kind = c.kind)
+    (hg : (c.kind == "gai") = false) (hi : c2.id = c.id) (ht : c2.tok = c.tok) :
+    OnCbOk c (if !c2.names.isEmpty then searchNextAct c2
+      else if c2.everNodata then (c2, [.finish .nodata c2.timeouts "-"])
+      else (c2, [.finish my c2.timeouts "-"])) := by
+  split
+  · unfold searchNextAct
+    split
+    · exact ⟨hi, ht, by simp [hasFinish, sends, ho]⟩
+    · refine ⟨hi, ht, ?_⟩
+      have : ∀ (ns : List String) (ln : String), ({ c2 with names := ns, lastName := ln } : Client).outstanding = 1 :=
+        fun _ _ => outstanding_other (by show (c2.kind == "gai") = false; rw [hk]; exact hg)
+      simp [hasFinish, sends, ho, this]
+  · split
+    · exact ⟨hi, ht, by simp [hasFinish, sends, ho]⟩
+    · exact ⟨hi, ht, by simp [hasFinish, sends, ho]⟩
+
+theorem searchCb_ok (c : Client) (st : Status) (timeouts : Nat) (rec : Option Reply)
+    (hg : (c.kind == "gai") = false) : OnCbOk c (searchCb c st timeouts rec) := by
+  have ho := outstanding_other hg
+  unfold searchCb
+  generalize (match rec with
+    | some r => replyToStatus r.rcode r.an
+    | none => st) = my
+  simp only
+  split
+  · exact ⟨rfl, rfl, by simp [hasFinish, sends, ho]⟩
+  · apply searchTail_ok c _ _ ho
+    · split <;> rfl
+    · exact hg
+    · split <;> rfl
+    · split <;> rfl
+
+theorem clientOnCb_ok (cfg : Cfg) (c : Client) (st : Status) (timeouts : Nat) (rec : Option Reply)
+    (h1 : 1 ≤ c.outstanding) : OnCbOk c (clientOnCb cfg c st timeouts rec) := by
+  by_cases hg : c.kind = "gai"
+  · unfold clientOnCb
+    simp only [hg, beq_self_eq_true, ↓reduceIte]
+    rw [gaiOnCb_eq]
+    rw [outstanding_gai hg] at h1
+    obtain ⟨p1, p2, p3, p4, p5, p6⟩ :=
+      gaiParse_ok { c with timeouts := c.timeouts + timeouts, remaining := c.remaining - 1 } (gaiStatus st rec) rec
+    generalize gaiParse { c with timeouts := c.timeouts + timeouts, remaining := c.remaining - 1 }
+      (gaiStatus st rec) rec = x at p1 p2 p3 p4 p5 p6
+    obtain ⟨c1, addinfo, acts⟩ := x
+    obtain ⟨⟨g1, g2, g3, g4⟩, g5⟩ := gaiTail_ok cfg (gaiStatus st rec) c c1 addinfo acts (p1.trans hg) p2 p3 p5 p6
+    refine ⟨g2, g3, ?_⟩
+    rw [outstanding_gai hg, outstanding_gai g1]
+    simp only at p4
+    split
+    · rename_i hf
+      rw [if_pos hf] at g4
+      have := g5 hf
+      exact ⟨g4, by omega⟩
+    · rename_i hf
+      rw [if_neg hf] at g4
+      omega
+  · have hg' : (c.kind == "gai") = false := by simpa using hg
+    have ho := outstanding_other hg'
+    by_cases hq : (c.kind == "query") = true
+    · unfold clientOnCb
+      simp only [hg', hq, Bool.false_eq_true, ↓reduceIte]
+      exact ⟨rfl, rfl, by simp [hasFinish, sends, ho]⟩
+    · rw [clientOnCb_search cfg c st timeouts rec hg' (by simpa using hq)]
+      exact searchCb_ok c st timeouts rec hg'
+
+/-- what an entry point may do -/
+structure StartOk (id tok : Nat) (r : Client × List ClientAct) : Prop where
+  id : r.1.id = id
+  tok : r.1.tok = tok
+  count : if hasFinish r.2 then sends r.2 = 0 else r.1.outstanding = sends r.2
+
+theorem clientStart_ok (cfg : Cfg) (id : Nat) (kind : String) (tok : Nat) (react : List Nat) (spec : ReqSpec)
+    (family : Nat) : StartOk id tok (clientStart cfg id kind tok react spec family) := by
+  unfold clientStart
+  split
+  · -- getaddrinfo
+    unfold gaiStart
+    simp only
+    split
+    · exact ⟨rfl, rfl, by simp [hasFinish, sends]⟩
+    · split
+      · exact ⟨rfl, rfl, by simp [hasFinish, sends]⟩
+      · split
+        · exact ⟨rfl, rfl, by simp [hasFinish, sends]⟩
+        · obtain ⟨g1, g2, g3, g4⟩ := gaiNextLookup_ok cfg 8
+            { id := id, kind := "gai", tok := tok, react := react, name := spec.name, family := family,
+              lookups := cfg.lookups.toList, names := searchNames cfg spec.name } .connrefused rfl
+          refine ⟨g2, g3, ?_⟩
+          rw [outstanding_gai g1]
+          split
+          · rename_i hf; rw [if_pos hf] at g4; exact g4
+          · rename_i hf; rw [if_neg hf] at g4; simpa using g4
+  · rename_i hg
+    have hg' : (kind == "gai") = false := by simpa using hg
+    split
+    · exact ⟨rfl, rfl, by simp [hasFinish, sends, outstanding_other (c := { id := id, kind := kind, tok := tok, react := react }) hg']⟩
+    · simp only
+      split
+      · exact ⟨rfl, rfl, by simp [hasFinish, sends]⟩
+      · unfold searchNextAct
+        split
+        · exact ⟨rfl, rfl, by simp [hasFinish, sends]⟩
+        · exact ⟨rfl, rfl, by simp [hasFinish, sends, Client.outstanding]⟩
+
+/-- `ares_query_nolock`'s out parameter does not touch the bookkeeping -/
+theorem sk_setQid (c : Client) (b : Bool) (x : Nat) :
+    (if b = true then { c with qidA := x } else { c with qidAAAA := x }).sk = c.sk := by
+  cases b <;> rfl
 
 end Cares.Chan
